@@ -198,7 +198,7 @@ def run(tier: str, seed: int) -> int:
     # same request again in the same process must give the same result (first occurrence vs later ones)
     first = {}
     for hi, ri, key, res in in_process:
-        if key in first and first[key][2] != res and "Timeout during evaluating constexpr" not in json.dumps([first[key][2], res]):
+        if key in first and first[key][2] != res and not common.load_timeout_result(first[key][2], res):
             failures.append({"what": f"the same request gives a different result later in the same process (history {first[key][0]} request {first[key][1]} vs history {hi} request {ri})",
                              "history": histories[hi][:ri + 1], "first": first[key][2], "later": res})
         first.setdefault(key, (hi, ri, res))
@@ -210,17 +210,17 @@ def run(tier: str, seed: int) -> int:
         fresh = dict(zip(keys, ex.map(lambda k: fresh_result(distinct[k], r.randrange(1, 1 << 20)), keys)))
     for k in keys:
         f = fresh[k]
-        if "Timeout during evaluating constexpr" in json.dumps(f):
+        if common.load_timeout_result(f):
             # the transpiler gives its constexpr child 1 s; under the load of the parallel fresh processes that is an
             # artefact of this run, not of the code: retry alone, and leave the request out if it still times out
             f = fresh[k] = fresh_result(distinct[k], 7)
-            if "Timeout during evaluating constexpr" in json.dumps(f):
+            if common.load_timeout_result(f):
                 chk.bump("fresh_constexpr_timeouts_skipped")
                 continue
         if "fresh_process_failed" in f:
             raise common.Infra("fresh interpreter failed: " + f["fresh_process_failed"])
         hi, ri, res = first[k]
-        if "Timeout during evaluating constexpr" in json.dumps(res):
+        if common.load_timeout_result(res):
             # the in-process compile itself ran into the 1 s child timeout (machine load): not comparable
             chk.bump("in_process_constexpr_timeouts_skipped")
             continue
